@@ -592,6 +592,17 @@ func genCase(h *rt.H) []string {
 					ops = append(ops, fmt.Sprintf("ipset %s %s %s", fam, xs(np), xs(id[:len(id)-1]+"#")))
 				}
 			}
+			// ids that differ ONLY in the last character (or the last two) that survive the truncation, drawn
+			// from every character class an id can hold (base64url hash characters '-' '_', separators, alnum):
+			// the names must differ (seed C37-4: a trailing-separator trim after the cut merged '-' and '_')
+			if keep := 31 - len(np) - 2; keep >= 2 && h.Intn(2) == 0 {
+				base := "s:" + randStr(h, 40)
+				tail := randStr(h, 6)
+				cs := []string{"-", "_", ":", ".", "a", "Z", "0", "--", "__", "-_", "_-", "a-", "a_"}
+				c1, c2 := rt.Pick(h, cs), rt.Pick(h, cs)
+				ops = append(ops, fmt.Sprintf("ipset %s %s %s", fam, xs(np), xs(base[:keep-len(c1)]+c1+tail)))
+				ops = append(ops, fmt.Sprintf("ipset %s %s %s", fam, xs(np), xs(base[:keep-len(c2)]+c2+randStr(h, 4))))
+			}
 		}
 	}
 	// hash table lines right after `new`
